@@ -203,7 +203,7 @@ def gen_2x(ctx, rng):
                 desc=dict(format=kind, neb=neb, ndt=ndt, ntt=ntt, target=target.symbol, charge=zt))
 
 
-def run_2x(ctx, w, c, text, model):
+def run_2x(ctx, w, c, text, model, extra=None):
     from cherab.openadas import parse as P, install as I, repository as R
     kind = c['kind']
     rel, path = w.write(text)
@@ -250,7 +250,333 @@ def run_2x(ctx, w, c, text, model):
     return res
 
 
-GENS = {'2x': (gen_2x, run_2x)}
+# ------------------------------------------------------------------------------------------------ ADF12
+TAGS12 = {'eb': 'id', 'ti': 'id', 'ni': 'pcm3', 'z': 'id', 'b': 'id', 'qeb': 'cm3', 'qti': 'cm3', 'qni': 'cm3', 'qz': 'cm3', 'qb': 'cm3',
+          'ebref': 'id', 'tiref': 'id', 'niref': 'pcm3', 'zref': 'id', 'bref': 'id', 'qref': 'cm3',
+          '_scalar': ('ebref', 'tiref', 'niref', 'zref', 'bref', 'qref')}
+STORED12 = ('eb', 'ti', 'ni', 'z', 'b', 'qeb', 'qti', 'qni', 'qz', 'qb', 'qref')
+
+
+def d2(x):
+    """1PD10.2-style token with Fortran's D exponent"""
+    return ('%.2E' % x).replace('E', 'D')
+
+
+def gen_12(ctx, rng, absent=False):
+    from cherab.core.atomic import hydrogen, deuterium, helium, carbon, neon, beryllium, boron
+    nblocks = rng.choice([1, 1, 2, 3, 5, 12, rng.randint(1, 12)])
+    receiver, charge = rng.choice([(hydrogen, 1), (helium, 2), (carbon, 6), (neon, 10), (beryllium, 4), (boron, 5)])
+    donor = rng.choice([hydrogen, deuterium])
+    ups = rng.sample(range(2, 40), nblocks)
+    toks = []
+    blocks = []
+    for b in range(nblocks):
+        up = ups[b]
+        lo = rng.randint(1, up - 1)
+        sizes = [rng.choice([1, 5, 6, 7, 12, 13, 23, 24, rng.randint(1, 24)]), rng.choice([1, 6, 7, 11, 12, rng.randint(1, 12)]),
+                 rng.choice([1, 6, 7, 18, 24, rng.randint(1, 24)]), rng.choice([1, 5, 6, 7, 12, rng.randint(1, 12)]),
+                 rng.choice([1, 6, 7, 12, rng.randint(1, 12)])]
+        qef = d2(rnd_pos(rng, -10, -7))
+        refs = [d2(rnd_pos(rng, 4, 5)), d2(rnd_pos(rng, 2, 4)), d2(rnd_pos(rng, 12, 14)), d2(rng.uniform(1, 4)), d2(rng.uniform(1, 5))]
+        secs = []
+        for n, (lo_, hi_) in zip(sizes, [(3, 5.3), (1, 4.5), (11, 15), (0, 1), (0, 1)]):
+            x = [d2(10 ** v) for v in increasing(rng, n, lo_, hi_)]
+            q = [d2(rnd_pos(rng, -10, -7)) for _ in range(n)]
+            secs += [x, q]
+        toks += [str(up), str(lo), qef] + refs + [str(n) for n in sizes]
+        for sec in secs:
+            toks += sec
+        names = ['eb', 'qeb', 'ti', 'qti', 'ni', 'qni', 'z', 'qz', 'b', 'qb']
+        st = {nm: (TAGS12[nm], v) for nm, v in zip(names, secs)}
+        for nm, v in zip(['ebref', 'tiref', 'niref', 'zref', 'bref'], refs):
+            st[nm] = (TAGS12[nm], v)
+        st['qref'] = (TAGS12['qref'], qef)
+        blocks.append(((up, lo), st, tuple(sizes)))
+    count = '-'
+    if absent:
+        count = str(nblocks + rng.randint(1, 3))
+    line = ' '.join(['adf12', count, d2(0.0), str(nblocks)] + toks)
+    return dict(fmt='12', kind='absent' if absent else 'std', line=line, blocks=blocks, donor=donor, receiver=receiver, charge=charge,
+                meta=rng.choice([1, 2]), sizes=(nblocks,) + tuple(b[2] for b in blocks[:2]), absent=absent,
+                desc=dict(format='adf12', blocks=nblocks, sizes=[b[2] for b in blocks], announced=count,
+                          receiver=receiver.symbol, charge=charge))
+
+
+def split_model_blocks(model):
+    """'ok key;f:..;..!key;..' -> [(key, 'f:..;..')]"""
+    body = model[3:]
+    out = []
+    if not body:
+        return out
+    for blk in body.split('!'):
+        key, _, rest = blk.partition(';')
+        out.append((key, rest))
+    return out
+
+
+def run_12(ctx, w, c, text, model, extra=None):
+    from cherab.openadas import parse as P, install as I, repository as R
+    rel, path = w.write(text)
+    donor, receiver, charge, meta = c['donor'], c['receiver'], c['charge'], c['meta']
+    st, r = call(P.parse_adf12, donor, meta, receiver, charge, path)
+    res = dict(parse_status=st)
+    if c['absent']:
+        # the first line announces more blocks than the file holds: must be rejected, not silently accepted
+        res['oracle'] = (st != 'ok', 'C08:adf12:announced-block-absent-accepted', 'parse_adf12 accepted a file announcing %s blocks with %d present'
+                         % (c['desc']['announced'], len(c['blocks'])))
+        if (st == 'ok') != model.startswith('ok') or (st != 'ok' and model != 'err ' + st):
+            res['impl_vs_model'] = 'impl %s, model %s' % (st, model[:60])
+        st2, e = quiet(I.install_adf12, donor, meta, receiver, charge, rel, repository_path=w.repo, adas_path=w.adas)
+        res['install'] = (st2 != 'ok', 'C08:adf12:announced-block-absent-installed', 'install_adf12 accepted the truncated file')
+        return res
+    if st != 'ok':
+        res['oracle'] = (False, 'C08:adf12:parse-raised', 'parse_adf12 raised %s: %s' % (st, r))
+        res['impl_vs_model'] = 'impl raised %s, model %s' % (st, model[:40])
+        return res
+    got = r[donor][receiver][charge]
+    want = {}
+    for tr, stc, _ in c['blocks']:
+        want[tr] = stc                                   # a repeated transition overwrites (ups are distinct here)
+    d = None
+    if set(got.keys()) != set(want.keys()):
+        d = 'transitions %r want %r' % (sorted(got.keys()), sorted(want.keys()))
+    else:
+        for tr in want:
+            if list(got[tr].keys()) != [meta]:
+                d = 'metastable keys %r' % list(got[tr].keys())
+                break
+            dd = cmp_struct(got[tr][meta], want[tr])
+            if dd:
+                d = 'transition %r %s' % (tr, dd)
+                break
+    res['oracle'] = (d is None, 'C08:adf12:parse:' + (d or '').split(':')[0][:40], 'parse_adf12: %s' % d)
+    if model.startswith('ok'):
+        mb = split_model_blocks(model)
+        md = {}
+        for key, body in mb:
+            a, b = key.split('-')
+            md[(int(a), int(b))] = parse_model_struct(body, TAGS12)
+        if set(md.keys()) != set(got.keys()):
+            res['impl_vs_model'] = 'transition keys differ: model %r impl %r' % (sorted(md), sorted(got.keys()))
+        else:
+            for tr in md:
+                dd = cmp_struct(got[tr][meta], md[tr])
+                if dd:
+                    res['impl_vs_model'] = 'transition %r %s' % (tr, dd)
+                    break
+        res['model_vs_tables'] = None if md == want else 'model parse differs from the generated tables'
+    else:
+        res['impl_vs_model'] = 'model says %s, implementation parsed the file' % model
+    st2, e = quiet(I.install_adf12, donor, meta, receiver, charge, rel, repository_path=w.repo, adas_path=w.adas)
+    if st2 != 'ok':
+        res['install'] = (False, 'C08:adf12:install-raised', 'install_adf12 raised %s: %s' % (st2, e))
+        return res
+    d2_ = None
+    for tr in want:
+        st3, back = call(R.get_beam_cx_rates, donor, receiver, charge, tr, w.repo)
+        if st3 != 'ok':
+            d2_ = 'get_beam_cx_rates%r raised %s' % (tr, st3)
+            break
+        back = dict(back)
+        if meta not in back:
+            d2_ = 'metastable %d missing for %r' % (meta, tr)
+            break
+        dd = cmp_struct(back[meta], want[tr], fields=STORED12)
+        if dd:
+            d2_ = 'transition %r %s' % (tr, dd)
+            break
+    st4, _ = call(R.get_beam_cx_rates, donor, receiver, charge, (41, 40), w.repo)
+    if d2_ is None and st4 != 'RuntimeError':
+        d2_ = 'get of an absent transition gave %s' % st4
+    res['install'] = (d2_ is None, 'C08:adf12:install:' + (d2_ or '')[:30], 'install_adf12 -> get_beam_cx_rates: %s' % d2_)
+    return res
+
+
+# ------------------------------------------------------------------------------------------------ ADF11
+CLS11 = {
+    'scd': ('install_adf11scd', 'get_ionisation_rate', -1),
+    'acd': ('install_adf11acd', 'get_recombination_rate', 0),
+    'ccd': ('install_adf11ccd', 'get_thermal_cx_rate', 0),
+    'plt': ('install_adf11plt', 'get_line_radiated_power_rate', -1),
+    'prb': ('install_adf11prb', 'get_continuum_radiated_power_rate', 0),
+    'prc': ('install_adf11prc', 'get_cx_radiated_power_rate', 0),
+}
+TAGS11P = {'ne': 'id', 'te': 'id', 'rates': 'id', '_matrix': ('rates',)}
+TAGS11I = {'ne': 'p10pcm3', 'te': 'p10', 'rates': 'p10cm3', '_matrix': ('rates',)}
+SIG11_PROBE = 'C08:adf11:unresolved-file-4th-line-negative-read-as-resolved'
+
+
+def f5(x):
+    return '%.5f' % x
+
+
+def gen_11(ctx, rng, wrong=None, dup=False):
+    from cherab.core.atomic import hydrogen, deuterium, helium, carbon, neon, argon, krypton, xenon, nitrogen
+    cls = rng.choice(sorted(CLS11))
+    element = rng.choice([hydrogen, helium, carbon, nitrogen, neon, argon, krypton, xenon])
+    Z = element.atomic_number
+    nblocks = min(Z, rng.choice([1, 1, 2, 3, 6, 10, 12, rng.randint(1, 12)]))
+    nNe, nTe = grid_size(rng, ctx), grid_size(rng, ctx)
+    if rng.random() < 0.25:
+        nNe = rng.randint(1, 8)                  # few densities: the 4th line of the file is a temperature line
+    ne = [f5(x) for x in increasing(rng, nNe, 7.0, 16.0)]
+    tlo = rng.choice([-0.69897, -1.0, 0.0, 0.30103, rng.uniform(-1, 1)])
+    te = [f5(x) for x in increasing(rng, nTe, tlo, 4.5)]
+    if rng.random() < 0.5:
+        te[0] = f5(tlo)
+        te.sort(key=float)
+    resolved = rng.random() < 0.3
+    z1s = list(range(1, nblocks + 1))
+    metaline = []
+    if resolved:
+        metaline = ['1'] * (nblocks + 1)
+        if dup and nblocks >= 2:
+            # metastable-resolved: several blocks share a Z1 (the API has no metastable index: the last one wins)
+            k = rng.randrange(nblocks - 1)
+            z1s[k + 1] = z1s[k]
+            metaline[k] = '2'
+    altEnd = rng.random() < 0.15
+    rates = [[[f5(rng.uniform(-40, -5)) for _ in range(nTe)] for _ in range(nNe)] for _ in range(nblocks)]   # [b][i_ne][i_te]
+    hz, hname = Z, element.name
+    req = element
+    if wrong == 'element':
+        req = rng.choice([e for e in (hydrogen, helium, carbon, neon, argon) if e.atomic_number != Z])
+    elif wrong == 'isotope':
+        hz, hname, req = 1, 'hydrogen', deuterium
+        nblocks_keep = 1
+        z1s, rates, metaline = z1s[:nblocks_keep], rates[:nblocks_keep], metaline[:nblocks_keep + 1] if resolved else []
+        nblocks = nblocks_keep
+    elif wrong == 'number':
+        hz = Z + 1                               # corrupt header: name right, nuclear charge wrong
+    flat = []
+    for b in range(nblocks):
+        for j in range(nTe):
+            for i in range(nNe):
+                flat.append(rates[b][i][j])
+    line = ' '.join(['adf11', cls, str(req.atomic_number), req.name, str(hz), hname, '1', str(nblocks), str(nNe), str(nTe),
+                     '1' if altEnd else '0', str(len(metaline))] + metaline + [str(nblocks)] + [str(z) for z in z1s] + ne + te + flat)
+    probe_tok = ne[8] if nNe > 8 else te[0]
+    return dict(fmt='11', kind=cls + ('r' if resolved else 'u') + (':wrong-' + wrong if wrong else '') + (':dup' if dup and resolved else ''),
+                cls=cls, line=line, element=element, request=req, z1s=z1s, ne=ne, te=te, rates=rates, resolved=resolved, wrong=wrong,
+                dup=resolved and len(set(z1s)) != len(z1s), probe_negative=(not resolved) and probe_tok.startswith('-'),
+                sizes=(nNe, nTe, nblocks, resolved, altEnd),
+                desc=dict(format='adf11', cls=cls, element=element.symbol, requested=req.symbol, n_ne=nNe, n_te=nTe, z1=z1s,
+                          resolved=resolved, alt_end=altEnd, fourth_line_first_token=probe_tok if not resolved else None))
+
+
+def run_11(ctx, w, c, text, model, extra=None):
+    from cherab.openadas import parse as P, install as I, repository as R
+    from cherab.core.atomic import hydrogen
+    rel, path = w.write(text)
+    el, req, cls = c['element'], c['request'], c['cls']
+    st, r = call(P.parse_adf11, req, path)
+    res = dict(parse_status=st)
+    if c['wrong']:
+        res['oracle'] = (st == 'ValueError', 'C08:adf11:wrong-element-header-accepted:' + c['wrong'],
+                         'parse_adf11(%s) on a file headed %s gave %s' % (req.symbol, c['desc']['element'], st))
+        if model != 'err ' + st:
+            res['impl_vs_model'] = 'impl %s, model %s' % (st, model[:60])
+        inst, getter, corr = CLS11[cls]
+        args = (hydrogen, 0, req, rel) if cls == 'ccd' else (req, rel)
+        st2, e = quiet(getattr(I, inst), *args, repository_path=w.repo, adas_path=w.adas)
+        res['install'] = (st2 == 'ValueError', 'C08:adf11:wrong-element-header-installed:' + c['wrong'],
+                          '%s(%s) on a file headed %s gave %s' % (inst, req.symbol, c['desc']['element'], st2))
+        return res
+    sig_root = SIG11_PROBE if c['probe_negative'] else 'C08:adf11'
+    # expected tables (a repeated Z1 of a metastable-resolved file: last block wins — not judged by the oracle)
+    want = {}
+    for z, tab in zip(c['z1s'], c['rates']):
+        want[z] = {'ne': ('id', c['ne']), 'te': ('id', c['te']), 'rates': ('id', tab)}
+    if st != 'ok':
+        res['oracle'] = (False, sig_root + ':parse-raised', 'parse_adf11 raised %s: %s' % (st, r))
+        if model != 'err ' + st:
+            res['impl_vs_model'] = 'impl raised %s, model %s' % (st, model[:40])
+        return res
+    got = r[req]
+    d = None
+    if set(got.keys()) != set(want.keys()):
+        d = 'charge keys %r want %r' % (sorted(got.keys()), sorted(want.keys()))
+    else:
+        for z in want:
+            dd = cmp_struct(got[z], want[z])
+            if dd:
+                d = 'Z1=%d %s' % (z, dd)
+                break
+    if not c['dup']:
+        why = 'parse_adf11: %s' % d
+        if c['probe_negative'] and d:
+            why += ' (unresolved file, 4th line starts with %s: taken for a resolved file, two data lines skipped)' % c['desc']['fourth_line_first_token']
+        res['oracle'] = (d is None, sig_root + (':parse' if d and not c['probe_negative'] else ''), why)
+    if model.startswith('ok'):
+        md = {}
+        for key, body in split_model_blocks(model):
+            md[int(key)] = parse_model_struct(body, TAGS11P)
+        if set(md.keys()) != set(got.keys()):
+            res['impl_vs_model'] = 'charge keys differ: model %r impl %r' % (sorted(md), sorted(got.keys()))
+        else:
+            for z in md:
+                dd = cmp_struct(got[z], md[z])
+                if dd:
+                    res['impl_vs_model'] = 'Z1=%d %s' % (z, dd)
+                    break
+        if not c['probe_negative']:
+            res['model_vs_tables'] = None if md == want else 'model parse differs from the generated tables'
+    else:
+        res['impl_vs_model'] = 'model says %s, implementation parsed the file' % model
+    # ---- install + read back
+    inst, getter, corr = CLS11[cls]
+    args = (hydrogen, 0, el, rel) if cls == 'ccd' else (el, rel)
+    st2, e = quiet(getattr(I, inst), *args, repository_path=w.repo, adas_path=w.adas)
+    minst = extra[0] if extra else ''
+    if st2 != 'ok':
+        if not c['dup']:
+            res['install'] = (False, sig_root + ('' if c['probe_negative'] else ':install-raised'), '%s raised %s: %s' % (inst, st2, e))
+        if minst.startswith('ok') and not c['probe_negative']:
+            res['impl_vs_model'] = res.get('impl_vs_model') or 'install raised %s, model installs' % st2
+        return res
+    d2_ = None
+
+    def get(charge):
+        if cls == 'ccd':
+            return call(getattr(R, getter), hydrogen, 0, el, charge, w.repo)
+        return call(getattr(R, getter), el, charge, w.repo)
+
+    for z in want:
+        st3, back = get(z + corr)
+        if st3 != 'ok':
+            d2_ = '%s(charge %d) raised %s' % (getter, z + corr, st3)
+            break
+        dd = cmp_struct(back, {'ne': ('p10pcm3', c['ne']), 'te': ('p10', c['te']), 'rate': ('p10cm3', want[z]['rates'][1])})
+        if dd:
+            d2_ = 'Z1=%d stored as charge %d: %s' % (z, z + corr, dd)
+            break
+    if d2_ is None:
+        absent = max(want) + corr + 1
+        st4, _ = get(absent)
+        if st4 != 'RuntimeError':
+            d2_ = 'get of absent charge %d gave %s' % (absent, st4)
+        if corr == -1:
+            st5, _ = get(max(want))
+            if st5 != 'RuntimeError':
+                d2_ = 'Z1=%d of a %s file is readable under the unshifted charge' % (max(want), cls)
+    if not c['dup']:
+        res['install'] = (d2_ is None, sig_root + (':install' if not c['probe_negative'] else ''), '%s -> %s: %s' % (inst, getter, d2_))
+    # the model's notation step against what the repository returns
+    if minst.startswith('ok'):
+        for key, body in split_model_blocks(minst):
+            ms = parse_model_struct(body, TAGS11I)
+            st3, back = get(int(key))
+            if st3 != 'ok':
+                res['impl_vs_model'] = res.get('impl_vs_model') or 'model stores charge %s, repository has none (%s)' % (key, st3)
+                break
+            dd = cmp_struct(back, {'ne': ms['ne'], 'te': ms['te'], 'rate': ms['rates']})
+            if dd:
+                res['impl_vs_model'] = res.get('impl_vs_model') or 'charge %s: %s' % (key, dd)
+                break
+    return res
+
+
+GENS = {'2x': (gen_2x, run_2x), '12': (gen_12, run_12), '11': (gen_11, run_11)}
 
 
 # ------------------------------------------------------------------------------------------------ driver
@@ -282,17 +608,24 @@ def _streams(ctx, w):
     cases = []
     for _ in range(ctx.n(60, 900)):
         cases.append(gen_2x(ctx, rng))
+    for i in range(ctx.n(60, 900)):
+        cases.append(gen_12(ctx, rng, absent=(i % 10 == 9)))
+    for i in range(ctx.n(120, 1800)):
+        wrong = [None] * 7 + ['element', 'isotope', 'number']
+        cases.append(gen_11(ctx, rng, wrong=wrong[i % 10], dup=(i % 10 == 3)))
+    w.fresh_repo()
     outs = ctx.driver([c['line'] for c in cases])
     ctx.traces = 0
     for c, o in zip(cases, outs):
         parts = o.split('#')
-        if len(parts) != 3:
+        if len(parts) < 3:
             ctx.broke('correspondence', 'C08 driver protocol', dict(case=c['desc'], answer=o[:200]))
             continue
         text = parts[0].replace('|', '\n') + '\n'
         model, agree = parts[1], parts[2]
         gen, runner = GENS[c['fmt']]
-        res = runner(ctx, w, c, text, model)
+        w.fresh_repo()
+        res = runner(ctx, w, c, text, model, parts[3:])
         key = (c['fmt'], c.get('kind'), c['sizes'])
         ctx.count('%s:%s' % (c['fmt'], c.get('kind')))
         ctx.case(key=key if res.get('parse_status') == 'ok' else None,
